@@ -347,6 +347,97 @@ func genEvidence() (string, error) {
 	}
 	evWriteList(&b, "fsmReset", "fsm/state.go StateMachine.Reset, normalised", evNormBody(rs, evDropLog))
 
+	// ---- certificate results of a nested committee on the root chain: the stateless check of the message (which
+	// must refuse ELECTION_VOTE certificates: their sign bytes do not cover the results), the handler, the guards
+	mh, err := g.ParseFile(filepath.Join(*repo, "fsm/message_helpers.go"))
+	if err != nil {
+		return "", err
+	}
+	crc := mh.FindFunc("MessageCertificateResults", "Check")
+	if crc == nil {
+		return "", fmt.Errorf("fsm/message_helpers.go: MessageCertificateResults.Check not found")
+	}
+	evWriteList(&b, "certResultsCheck", "fsm/message_helpers.go MessageCertificateResults.Check, normalised", evNormBody(crc, evDropLog))
+	dropTiming := func(src string) bool {
+		// only simple statements: a compound statement that merely contains a timing line is kept (and opened)
+		if strings.HasPrefix(src, "if ") || strings.HasPrefix(src, "for ") {
+			return false
+		}
+		return evDropLog(src) || strings.Contains(src, "observeStage") || strings.Contains(src, "time.Now()")
+	}
+	msgGo, err := g.ParseFile(filepath.Join(*repo, "fsm/message.go"))
+	if err != nil {
+		return "", err
+	}
+	hm := msgGo.FindFunc("StateMachine", "HandleMessageCertificateResults")
+	if hm == nil {
+		return "", fmt.Errorf("fsm/message.go: HandleMessageCertificateResults not found")
+	}
+	evWriteList(&b, "handleMessageCertificateResults", "fsm/message.go StateMachine.HandleMessageCertificateResults, normalised (logging and stage timing dropped)", evNormBody(hm, dropTiming))
+	autoGo, err := g.ParseFile(filepath.Join(*repo, "fsm/automatic.go"))
+	if err != nil {
+		return "", err
+	}
+	hcr := autoGo.FindFunc("StateMachine", "HandleCertificateResults")
+	if hcr == nil {
+		return "", fmt.Errorf("fsm/automatic.go: HandleCertificateResults not found")
+	}
+	evWriteList(&b, "handleCertificateResults", "fsm/automatic.go StateMachine.HandleCertificateResults, normalised (logging and stage timing dropped)", evNormBody(hcr, dropTiming))
+	// the authorised signer of the transaction
+	var authSrc string
+	if ga := msgGo.FindFunc("StateMachine", "GetAuthorizedSignersFor"); ga != nil {
+		ast.Inspect(ga.Body, func(nd ast.Node) bool {
+			if cc, ok := nd.(*ast.CaseClause); ok && len(cc.List) == 1 && g.ExprText(cc.List[0]) == "*MessageCertificateResults" {
+				authSrc = g.StmtsText(cc.Body)
+			}
+			return true
+		})
+	}
+	fmt.Fprintf(&b, "/-- GetAuthorizedSignersFor, case *MessageCertificateResults -/\ndef src_certResultsAuthorizedSigner : String := %q\n", authSrc)
+	// error ids of the state-machine constructors the model names ("<module>/<code>", constants live in lib/error.go)
+	libErr, err := g.ParseFile(filepath.Join(*repo, "lib/error.go"))
+	if err != nil {
+		return "", err
+	}
+	consts := map[string]string{}
+	for _, d := range libErr.AST.Decls {
+		if gd, ok := d.(*ast.GenDecl); ok && gd.Tok == token.CONST {
+			for _, sp := range gd.Specs {
+				vs := sp.(*ast.ValueSpec)
+				if len(vs.Names) == 1 && len(vs.Values) == 1 {
+					if bl, ok := vs.Values[0].(*ast.BasicLit); ok {
+						consts[vs.Names[0].Name] = strings.Trim(bl.Value, "\"")
+					}
+				}
+			}
+		}
+	}
+	fsmErr, err := g.ParseFile(filepath.Join(*repo, "fsm/error.go"))
+	if err != nil {
+		return "", err
+	}
+	for _, name := range []string{"ErrUnauthorizedTx", "ErrEmptyCertificateResults", "ErrInvalidCertificateResults"} {
+		fd := fsmErr.FindFunc("", name)
+		id := ""
+		if fd != nil {
+			ast.Inspect(fd.Body, func(nd ast.Node) bool {
+				if c, ok := nd.(*ast.CallExpr); ok && len(c.Args) >= 2 && strings.HasSuffix(g.ExprText(c.Fun), "NewError") {
+					code, ok1 := consts[strings.TrimPrefix(g.ExprText(c.Args[0]), "lib.")]
+					mod, ok2 := consts[strings.TrimPrefix(g.ExprText(c.Args[1]), "lib.")]
+					if ok1 && ok2 {
+						id = mod + "/" + code
+					}
+				}
+				return true
+			})
+		}
+		if id == "" {
+			return "", fmt.Errorf("fsm/error.go: %s not resolvable to module/code", name)
+		}
+		fmt.Fprintf(&b, "def fsm%s : String := %q\n", name, id)
+	}
+	b.WriteString("\n")
+
 	// ---- the wiring of the expiry bound
 	pd := evGo.FindFunc("BFT", "ProcessDSE")
 	minArgs, chDef := "", ""
